@@ -283,6 +283,30 @@ r2 = (mode, budget)
     )
     progs.append(
         f"""
+def holder(v):
+    w = T(1, v + {a})
+    class K:
+        b = T(2, v + 1)
+        c = [w, b]
+        def m(self):
+            return T(3, (v, w))
+    return (K.b, K.c, K().m())
+def deco(fn):
+    def wrapper(v):
+        def inner(a=T(4, fn(v)), *, k=fn(v + {b})):
+            return (a, k)
+        class Sub([object][fn(v) * 0]):
+            pass
+        return (inner(), Sub.__name__)
+    return wrapper
+def dbl(x):
+    return T(5, x * 2)
+r = holder({c})
+r2 = deco(dbl)({a})
+"""
+    )
+    progs.append(
+        f"""
 fs = []
 for i in range({c}):
     def g(j=i):
